@@ -354,7 +354,7 @@ def gen_script(rnd, k):
 
 def malform(text, rnd, decl_names):
     """-> (class, mutated text) for one of the classes with an unambiguous 'must be an error'."""
-    k = rnd.randrange(6)
+    k = rnd.randrange(7)
     if k == 0:
         return "undeclared-symbol", text.replace("(assert ", "(assert (and |never declared!| ", 1).replace("\n", ")\n", 1) \
             if False else text + "(assert (= |never declared!| |never declared!|))\n"
@@ -367,6 +367,34 @@ def malform(text, rnd, decl_names):
         return "unbalanced-parenthesis", text[:i] + text[i + 1:]
     if k == 4:
         return "unknown-command", text + "(frobnicate 3)\n"
+    if rnd.random() < 0.5:
+        # ill-sorted / ill-indexed uses the standard rejects whatever the logic is
+        return rnd.choice([
+            ("defined-function-argument-sort", text + "(define-fun |df!s| ((a Int)) Int a)(assert (= (|df!s| 1.5) 1))\n"),
+            ("defined-function-argument-sort", text + "(define-fun |df!b| ((a Bool) (b Int)) Bool a)(assert (|df!b| 1 true))\n"),
+            ("defined-function-arity", text + "(define-fun |df!a| ((a Int)) Int a)(assert (= (|df!a| 1 2) 1))\n"),
+            ("defined-function-arity", text + "(define-fun |df!z| ((a Int)) Int a)(assert (= |df!z| 1))\n"),
+            ("declared-function-argument-sort", text + "(declare-fun |uf!s| (Int) Int)(assert (= (|uf!s| true) 1))\n"),
+            ("declared-function-arity", text + "(declare-fun |uf!a| (Int) Int)(assert (= (|uf!a| 1 2) 1))\n"),
+            ("repeat-zero", text + "(assert (= ((_ repeat 0) #b01) #b01))\n"),
+            ("real-division-of-non-arithmetic-constants", text + "(assert (= (/ #b01 #b11) 1.0))\n"),
+            ("real-division-of-non-arithmetic-constants", text + "(assert (= (/ \"a\" \"b\") 1.0))\n"),
+            ("extract-out-of-range", text + "(assert (= ((_ extract 5 0) #b01) #b01))\n"),
+            ("extract-out-of-range", text + "(assert (= ((_ extract 0 1) #b01) #b01))\n"),
+            ("zero-width-bit-vector", text + "(assert (= (_ bv1 0) (_ bv1 0)))\n"),
+            ("ite-branch-sorts", text + "(assert (= (ite true 1 #b1) 1))\n"),
+            ("equality-of-different-sorts", text + "(assert (= 1 #b1))\n"),
+            ("equality-of-different-sorts", text + "(assert (distinct \"a\" #b1))\n"),
+            ("store-value-sort", text + "(declare-fun |ar!| () (Array Int Int))(assert (= (store |ar!| 1 true) |ar!|))\n"),
+            ("select-index-sort", text + "(declare-fun |ar!| () (Array Int Int))(assert (= (select |ar!| true) 1))\n"),
+            ("bit-vector-operator-on-integers", text + "(assert (bvult 1 2))\n"),
+            ("bit-vector-operator-on-integers", text + "(assert (= (concat 1 #b1) #b11))\n"),
+            ("string-operator-on-integers", text + "(assert (= (str.len 5) 1))\n"),
+            ("as-const-value-sort", text + "(assert (= ((as const (Array Int Int)) true) ((as const (Array Int Int)) 0)))\n"),
+            ("boolean-connective-on-integers", text + "(assert (and 1 2))\n"),
+            ("arithmetic-on-booleans", text + "(assert (= (- true) 1))\n"),
+            ("bv2nat-of-integer", text + "(assert (= (bv2nat 3) 3))\n"),
+        ])
     return rnd.choice([("wrong-arity-not", text + "(assert (not true false))\n"),
                        ("wrong-arity-ite", text + "(assert (ite true false))\n"),
                        ("ill-typed-plus-bool", text + "(assert (= (+ true 1) 2))\n"),
